@@ -267,7 +267,13 @@ impl TerminalRenderer {
     pub fn frame<T: Terminal + ?Sized>(&mut self, term: &mut T) -> Result<(), Error> {
         // clear hoisted locals
         self.images.clear();
-        self.marks.fill(CellMark::Empty);
+        // keep cells marked as damaged by `clear` (or `new` with clear flag set),
+        // they have to be repainted regardless of the back buffer content
+        self.marks.iter_mut().for_each(|mark| {
+            if *mark != CellMark::Damaged {
+                *mark = CellMark::Empty;
+            }
+        });
 
         // First pass
         //
@@ -425,6 +431,7 @@ impl TerminalRenderer {
         self.frame_count += 1;
         std::mem::swap(&mut self.front, &mut self.back);
         self.front.clear();
+        self.marks.fill(CellMark::Empty);
 
         Ok(())
     }
